@@ -762,7 +762,7 @@ impl Env {
         if self.register_only || groups == 0 || iters == 0 {
             return;
         }
-        let groups = ((groups as f64) * self.scale.min(4.0)).max(1.0) as u64;
+        let groups = ((groups as f64) * self.scale.min(4.0) * if self.thorough() { 8.0 } else { 1.0 }).max(1.0) as u64;
         let mut judged = 0u64;
         let mut formed = 0u64;
         let mut all: Vec<(Vec<P::Case>, u64)> = Vec::new();
